@@ -162,3 +162,17 @@ package lease_set2
 //@     assert(!ex)
 //@   }
 //@ }
+
+// C10 / C14 (leaseset key validation): the rule the validator and (through
+// validateEncryptionKeys) the constructor apply to one encryption key is the
+// specification's table: accepted exactly when KeyLen is the length of KeyData
+// and, for a known crypto type, equals the spec's public-key length of that
+// type - for every 16-bit type code.  (Body executed.)
+//@ option C10_C14_LS2KeyLengthRule nocontract *
+//@ lemma C10_C14_LS2KeyLengthRule(key EncryptionKey) {
+//@   e := validateEncryptionKeyConsistency(0, key)
+//@   want := i2pd.SpecCryptoPubLen(int(key.KeyType))
+//@   assert((e == nil) == (int(key.KeyLen) == len(key.KeyData) && (want < 0 || int(key.KeyLen) == want)))
+//@   ks := []EncryptionKey{key}
+//@   assert((validateEncryptionKeys(ks) == nil) == (e == nil))
+//@ }
